@@ -104,7 +104,9 @@ def write_replay(prop, fingerprint, spec, extra=None, directory=None):
     name = f"{prop}-{digest([fingerprint, spec], 12)}.json"
     path = os.path.join(directory, name)
     with open(path, "w") as f:
-        json.dump(body, f, indent=1, sort_keys=True, default=_default)
+        # key order is preserved on purpose: the insertion order of the mappings in a
+        # spec (boundary_width, link tables, ...) is an input the code under test can see
+        json.dump(body, f, indent=1, default=_default)
         f.write("\n")
     return path
 
